@@ -83,8 +83,8 @@ func TestCheck(t *testing.T) {
 	sink := &logSink{}
 	log.InitJSONForT(t, sink)
 
-	nA := r.N(900, 30000)
-	nB := r.N(300, 10000)
+	nA := r.N(900, 15000)
+	nB := r.N(300, 5000)
 	r.Cases(nA, 0, func(c *kit.Case) { runCase(c, c.Rng, "A:default-features", false) })
 	featureset.EnableForT(t, featureset.SSEReorgDuties)
 	r.Cases(nB, 0, func(c *kit.Case) { runCase(c, r.Rand(c.Idx, 15), "B:sse_reorg_duties", true) })
@@ -129,7 +129,6 @@ func runCase(c *kit.Case, rng *rand.Rand, phase string, reorgFeature bool) {
 		lastSlot     uint64
 		haveLast     bool
 		heldReleased int
-		parked       *gateEv
 	)
 	for {
 		var ev gateEv
@@ -180,8 +179,7 @@ func runCase(c *kit.Case, rng *rand.Rand, phase string, reorgFeature bool) {
 		}
 
 		if step >= len(sc.Steps) || repeats >= 2 || gate >= maxFrames {
-			parked = &ev // sentinel gate: keep the scheduler parked while the oracle waits
-			break
+			break // sentinel gate: the scheduler stays parked in the hook while the oracle waits
 		}
 		if sc.Probe {
 			probeWG.Add(1)
@@ -244,7 +242,7 @@ func runCase(c *kit.Case, rng *rand.Rand, phase string, reorgFeature bool) {
 			need := idleForLoss
 			onlyStale := true
 			for _, d := range an.missing {
-				if plain, _ := an.classifyMissing(d); len(plain) > 0 {
+				if plain, _, _ := an.classifyMissing(d); len(plain) > 0 {
 					onlyStale = false
 				}
 			}
@@ -281,7 +279,6 @@ func runCase(c *kit.Case, rng *rand.Rand, phase string, reorgFeature bool) {
 
 	// shut the scheduler down
 	close(h.done)
-	_ = parked
 	sched.Stop()
 	cancel()
 	select {
@@ -318,7 +315,7 @@ func runCase(c *kit.Case, rng *rand.Rand, phase string, reorgFeature bool) {
 			if !lossJudgeable {
 				break
 			}
-			plain, stale := an.classifyMissing(d)
+			plain, pendingPast, stale := an.classifyMissing(d)
 			laterSame, delayed := false, false
 			for _, tr := range final.trigs {
 				if tr.Duty.Type == d.Duty.Type && tr.Duty.Slot > d.Duty.Slot {
@@ -338,6 +335,11 @@ func runCase(c *kit.Case, rng *rand.Rand, phase string, reorgFeature bool) {
 				if !seenSig[sig] {
 					seenSig[sig] = true
 					c.Violation(sig, fmt.Sprintf("duty %v (validators %v active, assigned, offered to the scheduler) was never delivered to both subscribers: %s", d.Duty, plain, ev), witness(data))
+				}
+			} else if len(pendingPast) > 0 {
+				if !seenSig[pendingPastSig] {
+					seenSig[pendingPastSig] = true
+					c.Violation(pendingPastSig, fmt.Sprintf("duty %v never delivered: validators %v are active and assigned; the validators answers the scheduler used listed them as pending with an activation epoch before the epoch being resolved, and the scheduler only accepts ActivationEpoch == epoch: %s", d.Duty, pendingPast, ev), witness(data))
 				}
 			} else {
 				sig := staleSig
@@ -439,8 +441,11 @@ func traceOf(sc *scenario, sn snapshot, an *analysis) map[string]any {
 			default:
 				var act []string
 				for _, v := range sc.Cluster {
-					if a.eligible(v) {
+					switch {
+					case a.codeRule(v):
 						act = append(act, fmt.Sprint(v.Idx))
+					case a.implied(v):
+						act = append(act, fmt.Sprintf("(%d:pending,activation<epoch)", v.Idx))
 					}
 				}
 				parts = append(parts, fmt.Sprintf("resolve[epoch=%d active=%v %s]", a.Epoch, act, joinKinds(a.K)))
